@@ -168,9 +168,9 @@ def execImpl (procedural : Except Exc Unit) (evs : List NodeEv) : Except Exc Uni
 /-! ## SyntaxParserOfLark.__load_entry (implements/syntax/lark/parser.py:73-102) -/
 
 /-- the text handed to lark: the provider's text, completed by a final line feed when the tree has `__load_source`
-    (generated flag `sourceCompletesNewline`; parser.py `__load_source`) -/
+    (generated flags `sourceCompletesNewline`, `sourceCompletionSkipsEmpty`; parser.py `__load_source`) -/
 def loadSource (s : Str) : Str :=
-  if sourceCompletesNewline && !(Str.endsWith s ['\n']) then s ++ ['\n'] else s
+  if sourceCompletesNewline && !(Str.endsWith s ['\n']) && !(sourceCompletionSkipsEmpty && s.isEmpty) then s ++ ['\n'] else s
 
 /-- `parse`: what `parser.parse(<loaded source>)` does (raising while the source is loaded counts as well). `memHandlers`: the except clauses around the
     in-memory branch (`Generated.parserMemHandlers`: none on the pinned tree). On a cache hit the on-disk branch does not parse. -/
